@@ -12,6 +12,21 @@ ASSUMPTIONS = ["as in C01/C04/C07/C08/C13"]
 ENV = C01.ENV
 
 
+def ws_upgrade_queries(tier):
+    """the websocket opening handshake decisions (ws_handler, ws_http_cb_dialer): every combination of present / absent / malformed fields"""
+    qs = []
+    WENV = ["env_alloc.c", "env_misc.c", "env_sync.c", "env_libc.c", "env_aio.c", "env_msg.c"]
+    for side, sn in ((0, "listener"), (1, "dialer")):
+        for lp in (1, 0):
+            qs.append(Query("ws-upgrade-%s-%s" % (sn, "proto" if lp else "noproto"), "c11/ws_upgrade.c", tus=["core/list.c", "core/strs.c"], env=WENV,
+                            defs={"SIDE": side, "LPROTO": lp}, unwind=40, timeout=600, group="c11/ws_upgrade.c-" + sn,
+                            params={"unit": "supplemental/websocket/websocket.c " + ("ws_handler" if side == 0 else "ws_http_cb_dialer"),
+                                    "fields": "each absent / good / two malformed variants, chosen by the solver", "endpoint_has_subprotocol": bool(lp)}))
+    qs.append(Query("ws-upgrade-listener-closed", "c11/ws_upgrade.c", tus=["core/list.c", "core/strs.c"], env=WENV, defs={"SIDE": 0, "LPROTO": 1, "LCLOSED": 1},
+                    unwind=40, timeout=600, group="~c11/ws_upgrade.c-closed", params={"unit": "ws_handler", "listener": "closed"}))
+    return qs
+
+
 def queries(tier):
     qs = []
     for q in C01.queries(tier):
@@ -55,6 +70,7 @@ def queries(tier):
                                             "receive_pending": bool(waiter), "header_and_payload": "symbolic"}))
     qs.append(Query("listener-accept-any-result", "c14/listener_accept.c", tus=["core/list.c", "core/options.c"], env=["env_alloc.c", "env_misc.c", "env_sync.c", "env_aio.c", "env_libc.c"], defs={}, unwind=10,
                     unwind_rules=KIT_RULES, timeout=300, params={"kernel": "listener_accept_cb", "result": "any nng_err"}))
+    qs += ws_upgrade_queries(tier)
     seen = set()
     out = []
     for q in qs:
